@@ -568,7 +568,16 @@ def reference(spec: dict[str, Any], vset: int, n_mca: int = 4, pure_numpy: bool 
     plain = Shadow(spec, vset, pure_numpy=pure_numpy)
     ref = plain.outputs()
     spread = {k: np.zeros(v.shape) for k, v in ref.items()}
+    # an INTEGER division / remainder by zero is outside the fragment (undefined in C, a
+    # warning and 0 in NumPy): such an input set is unusable, like a fragile one.  The
+    # generator screens value sets 0 and 1; redrawn sets are screened here.
     fragile = False
+    for nd in spec["nodes"]:
+        if nd["op"] in ("floordiv", "mod") and len(nd["args"]) == 2:
+            dv = np.asarray(plain.arg(nd["args"][1]))
+            if dv.dtype.kind in "biu" and np.asarray(plain.arg(nd["args"][0])).dtype.kind in "biu" \
+                    and dv.size and not np.all(dv):
+                fragile = True
     for j in range(n_mca):
         sh = Shadow(spec, vset, mca_seed=common.sub_seed(spec["vseed"], "mca", vset, j),
                     pure_numpy=pure_numpy)
